@@ -7,4 +7,6 @@ require (
 	github.com/google/pprof v0.0.0
 )
 
+require github.com/ianlancetaylor/demangle v0.0.0-20240312041847-bd984b5ce465 // indirect
+
 replace github.com/google/pprof => /repo
